@@ -12,7 +12,8 @@ func genC12(o *Out) {
 		"childrenNodes", "indexHeight", "children", "parent", "nodeHash")
 	o.pinFile("util/fixedtree/proof.go", "NewProofFromNodes", "Proof.IsValid", "Proof.Prove", "Proof.filterNodes", "ExtractProofMaterial")
 	o.pinFile("util/fixedtree/writer.go", "Writer.Add", "Writer.Tree", "Writer.shrinkNodes", "generateNodeHash", "generateNodesHash")
-	o.pinFile("util/fixedtree/node.go", "BaseNode.Hash", "BaseNode.SetHash", "BaseNode.IsValid", "BaseNode.IsEmpty", "EmptyBaseNode")
+	o.pinFile("util/fixedtree/node.go", "BaseNode.Hash", "BaseNode.SetHash", "BaseNode.IsValid", "BaseNode.IsEmpty", "EmptyBaseNode", "BaseNode.UnmarshalJSON", "BaseNode.MarshalJSON")
+	o.pinFile("util/fixedtree/proof_json.go", "Proof.MarshalJSON", "Proof.UnmarshalJSON")
 	if f == nil {
 		return
 	}
